@@ -39,7 +39,8 @@ OUTSIDE = ("the inside of the application containers: MBI / HAB / AHAB / SB2.1 /
            "XMCD blocks with other than default content (C12); header segments whose whole content equals the padding "
            "pattern (documented: treated as absent); non-latest revisions; YAML load_from_config/store_config plumbing")
 STUBS = ["segments.MasterBootImage / HabContainer / AHABImage / BootImageV21 / SecureBinary31 -> self-delimiting container "
-         "model 'APPC' + length + body (both in the symbolic and in the concrete runs)"]
+         "model 'APPC' + length + body (both in the symbolic and in the concrete runs); the realmbi/* cases run the REAL Master "
+         "Boot Image classes instead (CRC / plain images with a symbolic payload)"]
 MUST_REACH = ["layout\\..*", "bytes\\..*", "parse\\..*"]
 OPTS = {"quick": {"case_timeout_s": 300, "max_paths": 4000}, "thorough": {"case_timeout_s": 1800, "max_paths": 40000}}
 
@@ -131,8 +132,11 @@ def setup(symbolic):
     class Ahab(App):
         parse = App._parse_inst
 
-    global APP, AHAB
+    global APP, AHAB, REAL_MBI, MB
     APP, AHAB = App, Ahab
+    REAL_MBI = SEG.MasterBootImage
+    from harness import mbi_common as MB
+    MB.setup(symbolic)
     SEG.MasterBootImage = App
     SEG.HabContainer = App
     SEG.AHABImage = Ahab
@@ -174,6 +178,20 @@ def cases(tier):
                 for L in ((9, 1025) if q else (9, 1023, 1024, 1025)):
                     cs.append({"id": f"bytes/{fam}/{mt}/{tag}/L={L}", "h": "bytes", "family": fam, "mem": mt,
                                "present": sorted(sub), "L": L, "weight": 3})
+    for fam, mem, key in (("lpc5534", "flexspi_nor", "lpc5534_xip_crc"), ("mimxrt533s", "flexspi_nor", "mimxrt533s_xip_crc"),
+                          ("mimxrt595s", "sd", "mimxrt595s_xip_plain"), ("mcxn947", "flexspi_nor", "mcxn947_xip_crc")):
+        try:
+            keys = MB.MBI.get_mbi_classes(fam)
+            mts = [m.label for m in BI.BootableImage.get_supported_memory_types(fam)]
+        except Exception:
+            continue
+        if key not in keys or mem not in mts:
+            continue
+        names = [s.NAME.label for s in BI.BootableImage(fam, MT.MemoryType.from_label(mem))._segments]
+        opt = [n for n in names if n not in APP_KINDS]
+        for L in (0x40, 0x123):
+            cs.append({"id": f"realmbi/{fam}/{mem}/{key}/L={L:#x}", "h": "realmbi", "family": fam, "mem": mem, "key": key, "L": L,
+                       "present": opt, "weight": 5})
     return cs
 
 
@@ -309,7 +327,7 @@ def seg_content(env, seg, name, L, fam, mt):
         ct = XMCD.get_supported_configuration_types(fam, xm)[0]
         return XMCD(fam, xm, ct).export()
     if name == "image_version_ap":
-        v = env.bytes("image_version", 2)
+        v = env.bytes("image_version_segment", 2)
         return bytes(v[:2]) + bytes([v[0] ^ 0xFF, v[1] ^ 0xFF]) if not env.symbolic else v + _xor_ff(v)
     return env.bytes(f"{name}_data", seg.SIZE)
 
@@ -374,6 +392,42 @@ def h_bytes(env, c):
         env.prove(env.bytes_eq(pout, b[start:]), "bytes.partial_export_is_tail_of_full_image")
         check_parse(env, pout, fam, mt, content, [(n, o - start, l) for n, o, l in exp if o >= start], start,
                     f"parse.from_{seg.NAME.label}")
+
+
+def h_realmbi(env, c):
+    """the REAL Master Boot Image as application container (no container model): a CRC / plain image with a symbolic
+    payload built by the MBI class, placed by the bootable image, found and parsed back by the real MBI parser"""
+    mt = MT.MemoryType.from_label(c["mem"])
+    fam = c["family"]
+    SEG.MasterBootImage = REAL_MBI
+    try:
+        x = MB.build(env, {"family": fam, "key": c["key"], "L": c["L"]})
+        mbi_bytes = x.obj.export()
+        bimg = BI.BootableImage(fam, mt)
+        content = {}
+        for seg in bimg._segments:
+            name = seg.NAME.label
+            if name == "mbi":
+                seg.mbi = x.obj
+                seg.raw_block = mbi_bytes
+                content[name] = mbi_bytes
+            elif name in c["present"]:
+                content[name] = seg_content(env, seg, name, 0, fam, mt)
+                seg.raw_block = content[name]
+        exp = expected_layout(env, bimg, set(content), {n: len(d) for n, d in content.items()}, 0)
+        out = bimg.export()
+        b = list(out)
+        for name, off, ln in exp:
+            env.prove(env.bytes_eq(b[off: off + ln], content[name]), "bytes.segment_bytes_at_its_offset")
+        back = BI.BootableImage.parse(out, family=fam, mem_type=mt)
+        got = {s.NAME.label: s for s in back.segments}
+        env.prove("mbi" in got and got["mbi"].mbi is not None, "parse.real_mbi_found_and_parsed")
+        if "mbi" in got and got["mbi"].mbi is not None:
+            env.prove(type(got["mbi"].mbi).__name__ == x.cls.__name__ or got["mbi"].mbi.IMAGE_TYPE == x.cls.IMAGE_TYPE, "parse.real_mbi_same_image_type")
+            env.prove_eq(got["mbi"].export()[: len(mbi_bytes)], mbi_bytes, "parse.real_mbi_bytes_recovered")
+            env.prove(back.get_segment_offset(got["mbi"]) == [o for n, o, l in exp if n == "mbi"][0], "parse.real_mbi_offset_recovered")
+    finally:
+        SEG.MasterBootImage = APP
 
 
 def check_parse(env, binary, fam, mt, content, exp, init, label):
